@@ -244,6 +244,7 @@ func checkC03(c *km.Ctx) {
 		}
 		return cap24 || a24, capAge || aAge, nonNeg || aNN
 	}
+	checkCredentialIssueTime(c, s, "R-C03-1")
 	nCalls := 0
 	// the issuing calls: in the handler or - the handler split into stages - in a stage new to the tree that the
 	// handler calls once (the frame of the stage then has the handler's frame at that call as its parent)
@@ -1084,4 +1085,28 @@ func recordFieldTestedNonNeg(c *km.Ctx, s *km.Sem, fr *durFrame, base ssa.Value,
 		}
 	}
 	return false
+}
+
+// checkCredentialIssueTime: "24 hours after the credential" is counted from when the credential was issued: for a
+// keymaster client certificate that is the leaf's NotBefore (never its NotAfter, which lies in the future and
+// makes the clamp vacuous), for an IP-restricted certificate the time of the request.
+func checkCredentialIssueTime(c *km.Ctx, s *km.Sem, rule string) {
+	if fn := c.P.Func("cmd/keymasterd", "(*RuntimeState).getUsernameIfKeymasterSigned"); fn != nil {
+		n := 0
+		for _, rc := range s.RetCases(fn) {
+			if cs, ok := km.ConstString(rc.Results[0]); ok && cs == "" {
+				continue
+			}
+			if len(rc.Results) < 2 {
+				continue
+			}
+			n++
+			v := km.Unwrap(rc.Results[1])
+			ok := mentionsField(v, "NotBefore")
+			c.R.Add(rule, km.FuncName(fn), "issue time of a certificate credential", posOf(c, rc.Ret), "the leaf certificate's NotBefore", km.ValStr(v), ok)
+		}
+		if n == 0 {
+			c.R.AnchorLost(rule, "success return of getUsernameIfKeymasterSigned")
+		}
+	}
 }
